@@ -235,6 +235,16 @@ def correspond(ctx):
     p2, data = reopen(prs)
     if "docProps/core.xml" not in zipfile.ZipFile(io.BytesIO(data)).namelist() or p2.core_properties.title != "PowerPoint Presentation":
         ctx.fail("default-core-properties-not-saved", "default core properties part is not in the saved package", {})
+    # two packages without core properties in one process: each gains ITS OWN default part
+    nocore = out.getvalue()
+    a = Presentation(io.BytesIO(nocore)); b_ = None
+    a.core_properties.author = "author of A"; a.core_properties.title = "title of A"
+    b_ = Presentation(io.BytesIO(nocore))
+    bt = b_.core_properties.title
+    b_.core_properties.author = "author of B"
+    ctx.case(key="two-default-parts")
+    if a.core_properties.author != "author of A" or a.core_properties.title != "title of A" or bt != "PowerPoint Presentation":
+        ctx.fail("default-core-properties-shared", f"two decks without core properties influence each other: A author={a.core_properties.author!r} title={a.core_properties.title!r}, B title on first access={bt!r}", {})
     res = ctx.driver.run(lines)
     for meta, i, m in zip(metas, impl, res):
         ctx.traces += 1
